@@ -187,16 +187,35 @@ macro_rules | `(tactic| evo_step) => `(tactic| with_reducible apply Evo.guardRem
 theorem Evo.frontStep {w0 w : World} (h : Evo w0 w) (g : Nat) (gd : Guard) : Evo w0 (frontStep w g gd) := by
   unfold S3.frontStep; evo
 
-theorem Evo.guardSignal' : ∀ (fuel : Nat) (w : World) (g : Nat), Evo w (guardSignal fuel w g) := by
+theorem Evo.condSignal_fst {w0 w : World} (h : Evo w0 w) (g : Nat) : Evo w0 (condSignal w g).1 := by
+  simp only [Sim.condSignal]
+  split
+  · exact h
+  · split
+    · exact h
+    · refine Evo.foldl (fun w q => by evo) _ ?_
+      exact Evo.foldl (fun w q => by evo) _ h
+macro_rules | `(tactic| evo_step) => `(tactic| with_reducible apply Evo.condSignal_fst)
+
+theorem Evo.ownStep {w0 w : World} (h : Evo w0 w) (fwd : Bool) (g : Nat) (gd : Guard) : Evo w0 (ownStep fwd w g gd) := by
+  unfold S3.ownStep
+  split
+  · exact h.condSignal_fst g
+  · exact h.frontStep g gd
+
+theorem Evo.guardSignalF' : ∀ (fuel : Nat) (fwd : Bool) (w : World) (g : Nat), Evo w (guardSignalF fwd fuel w g) := by
   intro fuel
   induction fuel with
-  | zero => intro w g; rw [guardSignal_zero]; exact (Evo.refl w).fail _
+  | zero => intro fwd w g; rw [guardSignalF_zero]; exact (Evo.refl w).fail _
   | succ fuel ih =>
-    intro w g
-    rw [guardSignal_succ]
+    intro fwd w g
+    rw [guardSignalF_succ]
     split
     · exact Evo.refl w
-    · exact Evo.foldl (fun w o => ih w o) _ ((Evo.refl w).frontStep g _)
+    · exact Evo.foldl (fun w o => ih true w o) _ ((Evo.refl w).ownStep fwd g _)
+
+theorem Evo.guardSignal' (fuel : Nat) (w : World) (g : Nat) : Evo w (guardSignal fuel w g) :=
+  Evo.guardSignalF' fuel false w g
 
 theorem Evo.guardSignal {w0 w : World} (h : Evo w0 w) (fuel : Nat) (g : Nat) : Evo w0 (guardSignal fuel w g) :=
   h.trans (Evo.guardSignal' fuel w g)
@@ -347,15 +366,6 @@ theorem Evo.pqPutLoop_fst {w0 w : World} (h : Evo w0 w) (p : Pid) (k obj : Nat) 
   simp only [Sim.pqPutLoop]; evo
 macro_rules | `(tactic| evo_step) => `(tactic| with_reducible apply Evo.pqPutLoop_fst)
 
-theorem Evo.condSignal_fst {w0 w : World} (h : Evo w0 w) (g : Nat) : Evo w0 (condSignal w g).1 := by
-  simp only [Sim.condSignal]
-  split
-  · exact h
-  · split
-    · exact h
-    · refine Evo.foldl (fun w q => by evo) _ ?_
-      exact Evo.foldl (fun w q => by evo) _ h
-macro_rules | `(tactic| evo_step) => `(tactic| with_reducible apply Evo.condSignal_fst)
 
 theorem Evo.acquireStep_fst {w0 w : World} (h : Evo w0 w) (p : Pid) (r : Nat) : Evo w0 (acquireStep w p r).1 := by
   simp only [Sim.acquireStep]; evo
